@@ -20,7 +20,12 @@ PROP = "C18"
 LEVEL = "exploration"
 
 CORPUS = ["quic_default", "quic_zero_ccid", "quic_prefix_cids", "quic_ncid", "quic_two", "tls12", "tls12_b", "tls13_v6", "tls13_b", "mixed",
-          "quic_dup_initial", "quic_vn", "tls12_retransmissions", "tls12_cbc_damaged", "tls_nine"]
+          "quic_dup_initial", "quic_vn", "tls12_retransmissions", "tls12_cbc_damaged", "tls_nine", "quic_alpn_bytes",
+          "aborts_cut_file", "aborts_no_capture"]
+# quic_alpn_bytes: the ClientHello offers one application protocol whose name is not ASCII (a GREASE value, RFC 8701);
+# aborts_*: inputs on which the run ends with an error (file cut inside a block / not a capture at all) - they only serve as
+# the FIRST run of a pair: whatever such a run leaves behind must not reach the next one
+ABORTING = {"aborts_cut_file", "aborts_no_capture"}
 # tls12_cbc_damaged: one bit of the last cipher block of a CBC record is flipped (padding and MAC no longer verify);
 # tls_nine: nine short TLS connections of different sizes in one capture
 # quic_dup_initial: the client's first Initial datagram was captured twice (its CRYPTO frame is seen again after it was consumed);
@@ -32,7 +37,7 @@ def describe(tier):
     S = 128 if tier == "quick" else 2048
     return {
         "rule": f"H: {len(CORPUS)} scenarios (incl. a duplicated Initial, a Version Negotiation datagram, TCP retransmissions) x (every iteration order of the scenario's connection-ID set realised by a hash seed in 0..{S - 1}, "
-                "one witness seed each) x cwd in {/, temp, /repo} x 7 environments, through `python -m tlexport.main` in fresh "
+                "one witness seed each) x cwd in {/, temp, /repo} x 9 environments (incl. PYTHONOPTIMIZE and non-UTF-8 stdout encodings), through `python -m tlexport.main` in fresh "
                 "processes, plus two runs with -a; R: all ordered pairs (A,B) of corpus entries, without and with -a, run back to back in one interpreter without state "
                 "restoration. non-trivial: a run whose output holds data and equals the reference hash; distinct = distinct "
                 "(scenario, seed/cwd/env) or pair",
@@ -72,6 +77,13 @@ def scenario(name, seed):
                 bytes.fromhex("00000001") + bytes.fromhex("6b3343cf") + bytes.fromhex("1a2a3a4a")
             f.pkts.insert(1, cap.Pkt(0, "s", "udp", vn))
         flows.append(f)
+    elif name == "quic_alpn_bytes":
+        flows.append(scen.quic_flow({"suite": 0x1301, "alpn": (b"\x8a\x8a",)}, seed, 0, key=("alpn",)))
+    elif name in ABORTING:
+        data, kl, cids = scenario("mixed", seed)
+        if name == "aborts_cut_file":
+            return data[:len(data) * 2 // 3 + 1], kl, []
+        return b"this is not a capture file\n" * 4, kl, []
     elif name == "tls12_cbc_damaged":
         f = scen.tls_flow({"version": tls.TLS12, "suite": 0x003D, "history": [("c", 100), ("s", 620), ("c", 50), ("s", 40)]}, seed, 0, key=("dmg",))
         big = max((p for p in f.pkts if p.dir == "s" and p.payload), key=lambda p: len(p.payload))
@@ -135,11 +147,16 @@ def witness_seeds(cidsets, S):
 
 
 ENVS = [{}, {"LANG": "C"}, {"LANG": "C.UTF-8", "LC_ALL": "C.UTF-8"}, {"TZ": "Asia/Tokyo"}, {"PYTHONUTF8": "1", "HOME": None},
-        {"PYTHONOPTIMIZE": "1"}, {"PYTHONOPTIMIZE": "2", "PYTHONDEVMODE": "1"}]
+        {"PYTHONOPTIMIZE": "1"}, {"PYTHONOPTIMIZE": "2", "PYTHONDEVMODE": "1"}, {"PYTHONIOENCODING": "ascii"},
+        {"PYTHONIOENCODING": "latin-1", "LC_ALL": "C", "PYTHONCOERCECLOCALE": "0", "PYTHONUTF8": "0"}]
+# the two -a runs of every scenario use different stdout encodings as well
+ENV_A = [{}, {"PYTHONIOENCODING": "ascii"}]
 
 
 def cases(tier, seed):
     for name in CORPUS:
+        if name in ABORTING:
+            continue
         yield {"layer": "H", "scenario": name, "seed": seed, "S": 128 if tier == "quick" else 2048}
     for a in CORPUS:
         yield {"layer": "R", "first": a, "seed": seed}
@@ -189,8 +206,8 @@ def run_case(case):
             except OSError:
                 pass
         # the same with metadata export: two fresh processes (different hash seeds, the second started later) must agree
-        ra = harness.run_cli(data, kl, args=["-a"], hashseed="0")
-        rb = harness.run_cli(data, kl, args=["-a"], hashseed="3", cwd="/")
+        ra = harness.run_cli(data, kl, args=["-a"], hashseed="0", env=ENV_A[0])
+        rb = harness.run_cli(data, kl, args=["-a"], hashseed="3", cwd="/", env=ENV_A[1])
         n += 2
         sa = {"scenario": name, "args": "-a"}
         if not ra.ok or not rb.ok or ra.out is None or rb.out is None:
@@ -209,7 +226,7 @@ def run_case(case):
     else:
         a = case["first"]
         da, ka, _ = scenario(a, seed)
-        for b, args in [(b, args) for b in CORPUS for args in ((), ("-a",))]:
+        for b, args in [(b, args) for b in CORPUS for args in ((), ("-a",)) if b not in ABORTING]:
             db, kb, _ = scenario(b, seed)
             fresh = harness.run_tlexport(db, kb, args)                 # reference: state restored by the harness
             harness.reset_state()
